@@ -441,3 +441,58 @@ Proof.
   vm_compute. repeat split. eexists. reflexivity.
 Qed.
 End C02_translated.
+
+(* ------------------------------------------------------------------------------------------ *)
+(* lbuf_saved(lb, clear) with clear != 0 on the translated C text (coq/TrLbuf.v): the loop `for (i = 0; i < lb->hist_n; i++)
+   lopt_done(&lb->hist[i])` frees the four pointers ins, del, mark, mark_off of every log entry, in order; then hist_n = hist_u = 0,
+   useq_last = useq, useq_zero = lbuf_seq(lb) = useq, and lbuf_modified(xb) bumps the counter.  Heap hypothesis: that sequence of
+   frees is legal in the memory at the call (TrLbuf.free_list = Ok: each pointer is NULL or points to the start of a live block,
+   no block twice -- free() of anything else is an error of the semantics) and none of the pointers points to the struct, the log
+   array or the table bufs (TrLbuf.avoids).  Then the call returns, the memory is the one in which exactly those blocks are
+   emptied and the five cells of the struct are changed, and it represents UndoDefs.lbuf_saved lb true.  (hist itself is not
+   freed and hist_sz is kept: the array is reused -- as the model's clear_hist says.) *)
+From NV Require CLite CLiteProps GenCFuncs TrLbufBase TrLbuf.
+Section C02_translated_clear.
+Import CLite CLiteProps GenCFuncs TrLbufBase TrLbuf.
+
+Theorem C02_tr_lbuf_saved_clear : forall m bl blk (lb : lbuf) bh hblk gblk m1 c d fuel,
+  lbuf_rep m bl blk lb -> lbuf_ints lb -> (useq lb < 2147483647)%Z -> c <> 0%Z ->
+  ((0 < length (hist lb))%nat -> nth_error blk L_hist = Some (VPtr bh 0) /\ nth_error m bh = Some hblk /\
+                                  (9 * length (hist lb) <= length hblk)%nat) ->
+  avoids (ptrs_from hblk 0 (length (hist lb))) [bl; bh; G_bufs] ->
+  free_list (ptrs_from hblk 0 (length (hist lb))) m = Ok m1 ->
+  bl <> G_bufs -> nth_error m G_bufs = Some gblk -> nth_error gblk B_lb = Some (VPtr bl 0) ->
+  (length (hist lb) < fuel)%nat ->
+  let blk' := upd (upd (cleared_blk blk (useq lb)) L_useq_zero (VInt (useq lb))) L_useq (VInt (useq lb + 1)) in
+  callf cprog fuel (S (S (S d))) F_lbuf_saved [VPtr bl 0; VInt c] m = Ok (VUndef, upd m1 bl blk')
+  /\ lbuf_rep (upd m1 bl blk') bl blk' (lbuf_saved lb true).
+Proof. exact tr_lbuf_saved_clear. Qed.
+
+(* not vacuous, and it RUNS: the struct (block B) of a modified buffer with two log entries (array in block B+1): entry 0 has an
+   inserted text (block B+2), entry 1 a deleted text (block B+3) and saved marks (blocks B+4, B+5).  lbuf_saved(lb, 1) empties
+   exactly those four blocks, leaves hist_n = hist_u = 0, useq_last = useq_zero = 5, useq = 6; the next lbuf_modified reports
+   clean; calling lbuf_saved(lb, 1) on a heap where entry 0's text is already freed is an error (double free) *)
+Example C02_tr_clear_nonvacuous :
+  let B := length cglobals in
+  let blk0 := repeat (VInt (-1)) 32 ++ repeat (VInt 0) 32 ++
+              [VInt 0; VInt 0; VInt 0; VInt 0; VInt 5; VPtr (B + 1) 0; VInt 128; VInt 2; VInt 2; VInt 3; VInt 2] in
+  let hb0 := [VPtr (B + 2) 0; VInt 0; VInt 0; VInt 1; VInt 0; VInt 0; VInt 4; VInt 0; VInt 0;
+              VInt 0; VPtr (B + 3) 0; VInt 0; VInt 0; VInt 1; VInt 0; VInt 4; VPtr (B + 4) 0; VPtr (B + 5) 0] in
+  let txt := [VInt 97; VInt 10; VInt 0] in
+  let m0 := repeat [] G_bufs ++ [upd gb_bufs B_lb (VPtr B 0)] ++ repeat [] (B - S G_bufs) ++
+            [blk0; hb0; txt; txt; repeat (VInt (-1)) 32; repeat (VInt 0) 32] in     (* only bufs among the globals *)
+  let cell m i := match nth_error m B with Some b => nth_error b i | None => None end in
+  free_list (ptrs_from hb0 0 2) m0 = Ok (upd (upd (upd (upd m0 (B + 2) []) (B + 3) []) (B + 4) []) (B + 5) []) /\
+  match callf cprog 3 4 F_lbuf_saved [VPtr B 0; VInt 1] m0 with
+  | Ok (_, m1) =>
+      map (nth_error m1) [B + 2; B + 3; B + 4; B + 5]%nat = [Some []; Some []; Some []; Some []] /\
+      nth_error m1 (B + 1)%nat = Some hb0 /\
+      map (cell m1) [L_useq; L_hist_n; L_hist_u; L_useq_zero; L_useq_last]
+        = [Some (VInt 6); Some (VInt 0); Some (VInt 0); Some (VInt 5); Some (VInt 5)] /\
+      (exists m2, callf cprog 3 4 F_lbuf_modified [VPtr B 0] m1 = Ok (VInt 0, m2))
+  | Err _ => False
+  end /\
+  callf cprog 3 4 F_lbuf_saved [VPtr B 0; VInt 1] (upd m0 (B + 2) []) = Err EOob.
+Proof. cbv zeta. set (B := length cglobals). vm_compute in B. subst B. vm_compute. repeat split. eexists. reflexivity. Qed.
+End C02_translated_clear.
+Print Assumptions C02_tr_lbuf_saved_clear.
